@@ -89,7 +89,8 @@ pub fn base_b1(enc: TextEncoding) -> Automerge {
 
 /// B2: B1 after a prelude of concurrent edits by two extra actors: conflicts on `a` (int / counter
 /// / object), a conflicted list element, concurrent inserts at the same position, tombstones, a
-/// counter in a conflicted register, overlapping marks, a block.
+/// counter in a conflicted register (winning in list element 0, losing in the last list element),
+/// overlapping marks, a block.
 pub fn base_b2(enc: TextEncoding) -> Automerge {
     let b1 = base_b1(enc);
     let mut x = b1.fork().with_actor(actor(PRE_A));
@@ -104,6 +105,9 @@ pub fn base_b2(enc: TextEncoding) -> Automerge {
         tx.delete(&lx, 3)?;
         tx.splice_text(&tx_, 1, 0, "X")?;
         tx.mark(&tx_, Mark::new("bold".into(), true, 0, 3), EA)?;
+        // the last list element becomes a register {counter (lower id), string (higher id, winner)}:
+        // the mirror image of element 0, where the counter wins
+        tx.put(&lx, 2, automerge::ScalarValue::counter(50))?;
         Ok(())
     });
     must(&mut x, |tx| {
@@ -120,6 +124,7 @@ pub fn base_b2(enc: TextEncoding) -> Automerge {
         tx.mark(&ty, Mark::new("bold".into(), false, 1, 3), EB)?;
         tx.mark(&ty, Mark::new("link".into(), "u", 0, 2), automerge::marks::ExpandMark::None)?;
         tx.increment(ROOT, "c", 2)?;
+        tx.put(&ly, 2, "q")?;
         Ok(())
     });
     must(&mut y, |tx| {
